@@ -553,6 +553,11 @@ def run_c03(ctx):
     for k in KIND_LIST + ['Hidden']:
         for _ in range(ctx.scale(12, 100)):
             vals.append(('ctrl_kind_' + k, ctrl_text(0, 1, 2, 3, 4, ['MessageType(%s)' % rng.choice(MT), rand_avp(rng, k)])))
+    for _ in range(ctx.scale(40, 400)):
+        kind = rng.choice(['VendorName', 'VendorName', 'CalledNumber', 'CallingNumber', 'SubAddress', 'HostName', 'Challenge', 'PrivateGroupId'])
+        base = (b'vendor ' + bytes(rng.choice(b'abcdefghijklmnop') for _ in range(rng.randrange(20, 60))) + b' rev 0001')
+        for w in [base] + corpus.near_duplicates(rng, base):
+            vals.append(('neighbours', ctrl_text(0, 1, 2, 3, 4, ['MessageType(%s)' % rng.choice(MT), '%s(%s)' % (kind, w.hex())])))
     # one in four is encoded behind what the writer already holds; the message is what was appended
     pre = [rbytes(rng, rng.choice([1, 12, 20, 300])).hex() if (i % 4 == 3 and i > 1) else '' for i in range(len(vals))]
     enc = ['ENC\t%s\t%s' % (v, p) for (_, v), p in zip(vals, pre)]
@@ -1495,7 +1500,7 @@ def run_c15(ctx):
     rng = ctx.rng
     msgs = []
     for _ in range(ctx.scale(5000, 60000)):
-        k = rng.choice([0, 1, 2, 3, 4, 6, 9, 12])
+        k = rng.choice([0, 1, 2, 3, 4, 6, 9, 12]) if rng.random() < 0.93 else rng.choice([20, 33, 34, 40, 64, 65, 80])
         recs, bad = [], []
         first = rng.random()
         for i in range(k):
@@ -1551,6 +1556,10 @@ def run_c15(ctx):
         badlen = rng.choice([0, 1, 5, 1023, 500])
         stopper = avp_rec(7, b'abc', length=badlen)
         after = b''.join(good_record(rng) for _ in range(rng.randrange(0, 3)))
+        if rng.random() < 0.25:
+            # an all-zero record with nothing but zero octets after it (padding is not part of the format)
+            stopper, badlen = bytes(6), 0
+            after = bytes(rng.choice([0, 0, 1, 2, 6, 7, 12, 30]))
         body = b''.join(recs) + stopper + after
         if badlen >= 6 and badlen - 6 <= len(stopper) - 6 + len(after):
             continue
